@@ -1084,3 +1084,11 @@ def occurrences(labels, x):
 
 def is_black(v):
     return list(v) == [0, 0, 0]
+
+
+def created(cls):
+    return None          # witness hint only: not part of the executable reading
+
+
+def call_result(q, k=None):
+    raise LookupError("call_result() is not available in the executable reading")
